@@ -241,4 +241,8 @@ pub open spec fn type_rejection_explained(reg0: &TypeRegistry, scope: Seq<ItemPa
                         resolve_regions_spec(reg, p, pend, None, target, vft, regions, size)
                         && (has_base_region(regions) || !alignment_accepts(has_ident(a, "packed"@, n), align, regions, size, reg)))
 }
+/// some field statement whose type does not (yet) resolve in the scope
+pub open spec fn field_unresolved(reg: &TypeRegistry, scope: Seq<ItemPath>, stmts: Seq<TypeStatement>) -> bool {
+    exists|j: int| 0 <= j < stmts.len() && (#[trigger] stmts[j]).field is Field && spec_resolve_type(reg, scope, stmts[j].field->Field_2) is None
+}
 }
